@@ -170,6 +170,26 @@ type USpec struct {
 	Alter   string   `json:"alter"`
 	Altered *UFields `json:"altered,omitempty"`
 	AlgName string   `json:"alg"`
+	// PreOpts: options given before the ones derived from Fields ("exp:<n>", "noexp", "nbf:<n>",
+	// "nnc:<s>"): a later option replaces an earlier one
+	PreOpts []string `json:"preOpts,omitempty"`
+}
+
+func preOpts(l []string) []delegation.Option {
+	var out []delegation.Option
+	for _, o := range l {
+		switch {
+		case o == "noexp":
+			out = append(out, delegation.WithNoExpiration())
+		case strings.HasPrefix(o, "exp:"):
+			out = append(out, delegation.WithExpiration(atoi(o[4:])))
+		case strings.HasPrefix(o, "nbf:"):
+			out = append(out, delegation.WithNotBefore(atoi(o[4:])))
+		case strings.HasPrefix(o, "nnc:"):
+			out = append(out, delegation.WithNonce(o[4:]))
+		}
+	}
+	return out
 }
 
 var cidPool = []string{
@@ -273,6 +293,9 @@ func genC07(cfg Config, emit Emit) error {
 			}
 			s.Fields.Fct = append(s.Fields.Fct, kv[:1]) // one key per fact: the key order of Issue's fact model comes from a Go map
 		}
+		if r.Intn(5) == 0 { // an earlier, contradicting option: the later one holds
+			s.PreOpts = [][]string{{"exp:1999999999"}, {"noexp"}, {"nbf:7", "nnc:earlier"}, {"noexp", "exp:1888888888"}}[r.Intn(4)]
+		}
 		s.Alter = alterKinds[i%len(alterKinds)]
 		// the three collision alterations need a link / bytes caveat to exist
 		switch s.Alter {
@@ -358,7 +381,7 @@ func execUcan(a []string) Result {
 	for _, c := range s.Fields.Att {
 		caps = append(caps, ucan.NewCapability(c.Can, c.With, tvBuilder{c.Nb}))
 	}
-	var opts []delegation.Option
+	opts := preOpts(s.PreOpts)
 	if s.Fields.Exp == nil {
 		opts = append(opts, delegation.WithNoExpiration())
 	} else if *s.Fields.Exp >= 0 {
@@ -389,6 +412,14 @@ func execUcan(a []string) Result {
 	s.Fields.V = d.Version()
 	s.Fields.Iss, s.Fields.Aud = sg.DID().String(), audS.DID().String()
 	s.Fields.Exp = d.Expiration()
+	if len(s.PreOpts) > 0 { // what an earlier option left in place
+		if nb := d.NotBefore(); nb != 0 && s.Fields.Nbf == nil {
+			s.Fields.Nbf = &nb
+		}
+		if nn := d.Nonce(); nn != "" && s.Fields.Nnc == nil {
+			s.Fields.Nnc = &nn
+		}
+	}
 	s.AlgName = sg.SignatureAlgorithm()
 	vfr := sg.Verifier()
 
